@@ -17,6 +17,17 @@ inductive Blocked (net : Net) (s : NState) : Instr → Prop
       s.mbs[m]? = some a → a.closed = false → a.killed = false → ¬ a.heapLen < sp.cap → Blocked net s i
   | join (u : Nat) (tu : TSt) : s.thr[u]? = some tu → tu.prog ≠ [] → Blocked net s (.join u)
 
+theorem Blocked.kind {net : Net} {s : NState} {i : Instr} (h : Blocked net s i) :
+    (∃ m, i = .gate m) ∨ (∃ m k, i = .read m k) ∨ (∃ m, i = .send m) ∨ (∃ m, i = .close m) ∨ ∃ u, i = .join u := by
+  cases h with
+  | gate m _ _ _ _ _ => exact Or.inl ⟨m, rfl⟩
+  | read m k _ _ _ _ _ _ _ _ => exact Or.inr (Or.inl ⟨m, k, rfl⟩)
+  | out _ m _ _ hi _ _ _ _ _ =>
+    rcases hi with hi | hi
+    · exact Or.inr (Or.inr (Or.inl ⟨m, hi⟩))
+    · exact Or.inr (Or.inr (Or.inr (Or.inl ⟨m, hi⟩)))
+  | join u _ _ _ => exact Or.inr (Or.inr (Or.inr (Or.inr ⟨u, rfl⟩)))
+
 theorem blocked_of_none {net : Net} {s : NState} {t : Nat} {ts : TSt} {i : Instr} {rest : List Instr}
     (hts : s.thr[t]? = some ts) (hp : ts.prog = i :: rest) (h : step net s t = none) : Blocked net s i := by
   unfold step at h
@@ -155,5 +166,500 @@ theorem canFetch_false {sp : MBSpec} {a : AMB} (h : canFetch sp a = false) :
           exact ⟨k, by simp [List.getElem?_zip_eq_some, hk', hd]⟩
         simp only [this] at h
         cases h
+
+/-! ### terminal states -/
+
+/-- everything the terminal-state analysis uses -/
+structure Term (net : Net) (c : Cert) (s : NState) : Prop where
+  tree : TreeNet net c
+  inv : TInv net c s
+  stuck : ∀ t, step net s t = none
+
+section
+variable {net : Net} {c : Cert} {s : NState}
+
+theorem Term.blocked (x : Term net c s) {t : Nat} {ts : TSt} {i : Instr} {rest : List Instr}
+    (hts : s.thr[t]? = some ts) (hp : ts.prog = i :: rest) : Blocked net s i :=
+  blocked_of_none hts hp (x.stuck t)
+
+theorem TInv.thrState (h : TInv net c s) {t : Nat} (ht : t < net.threads.length) : ∃ ts, s.thr[t]? = some ts := by
+  rw [← h.lenT] at ht; exact ⟨_, List.getElem?_eq_getElem ht⟩
+
+/-- a reader whose `read` could proceed is not stuck -/
+theorem Term.read_stuck (x : Term net c s) {r : Nat} {tsr : TSt} {m j : Nat} {rest : List Instr} {a : AMB} {sb : ASub}
+    (hts : s.thr[r]? = some tsr) (hp : tsr.prog = .read m j :: rest) (ha : s.mbs[m]? = some a) (hsb : a.subs[j]? = some sb) :
+    sb.buffered = 0 ∧ a.killed = false ∧ ¬ sb.next < a.nSent ∧ sb.waiting ≠ none := by
+  cases x.blocked hts hp with
+  | read _ _ a' sb' ha' hsb' h1 h2 h3 h4 =>
+    rw [ha] at ha'; cases ha'; rw [hsb] at hsb'; cases hsb'
+    exact ⟨h1, h2, h3, h4⟩
+  | out _ _ _ _ hi _ _ _ _ _ => rcases hi with hi | hi <;> cases hi
+
+/-- a sink never is the slowest reader of a live mailbox in a terminal state -/
+theorem Term.sink_not_slow (x : Term net c s) {m : Nat} {a : AMB} {k : Nat} {sb : ASub} (hmlt : m < net.mbs.length)
+    (ha : s.mbs[m]? = some a) (hk : a.subs[k]? = some sb) (hne : k ≠ c.pipe m) (hkl : a.killed = false)
+    (hslow : sb.next < a.nSent) : False := by
+  obtain ⟨sp, hsp, _, _, _, _, _, hr⟩ := x.tree.mailbox hmlt
+  have hklt : k < sp.drive.length := by
+    rw [← x.inv.lenS m sp a hsp ha]; exact (List.getElem?_eq_some_iff.mp hk).1
+  obtain ⟨hrlt, _, h1, _⟩ := hr k hklt
+  obtain ⟨hnm, hout, hsrc⟩ := h1 hne
+  obtain ⟨tsr, htsr⟩ := x.inv.thrState hrlt
+  have hthr : net.threads[c.reader m k]? = some (net.threads[c.reader m k]'hrlt) := List.getElem?_eq_getElem hrlt
+  generalize net.threads[c.reader m k]'hrlt = thr at hthr
+  have hsink : SinkOk c net.mbs.length (c.reader m k) thr := by
+    cases x.tree.kind hthr with
+    | main hmain _ => exact absurd hmain hnm
+    | sender mo _ ho _ => rw [hout] at ho; cases ho
+    | sink _ _ hok _ => exact hok
+  unfold SinkOk at hsink
+  rw [hsrc] at hsink
+  obtain ⟨p0, p1, p2⟩ := x.inv.pc _ thr tsr hthr htsr
+  have hsn := (x.inv.snd m a hmlt ha).1
+  have hrlt' : c.reader m k < net.threads.length - 1 := by omega
+  cases hp : tsr.prog with
+  | nil =>
+    cases hin : tsr.inEpi with
+    | false =>
+      have := x.inv.rd m a k sb tsr ha hk htsr hin
+      rw [hp] at this; simp at this; omega
+    | true =>
+      obtain ⟨_, hex⟩ := p2 hin
+      cases hexc : tsr.exc with
+      | none => simp [hexc] at hex
+      | some e =>
+        obtain ⟨own, r⟩ := e
+        cases own with
+        | false =>
+          have := x.inv.sinkK _ tsr r hrlt' hout htsr hexc
+          rw [hsrc] at this
+          obtain ⟨a', ha', hk'⟩ := this
+          rw [ha] at ha'; cases ha'; rw [hkl] at hk'; cases hk'
+        | true =>
+          have := (x.inv.kills _ thr tsr true r hthr htsr hin hexc).2 rfl m (by rw [hsink.2.2.2.2.2]; simp)
+          rcases this with hm | ⟨a', ha', hk'⟩
+          · rw [hp] at hm; cases hm
+          · rw [ha] at ha'; cases ha'; rw [hkl] at hk'; cases hk'
+  | cons i rest =>
+    have hb := x.blocked htsr hp
+    cases hin : tsr.inEpi with
+    | false =>
+      have hmem := suffix_head_mem (by rw [← hp]; exact p1 hin)
+      rcases hsink.2.2.2.1 i hmem with h1 | h1 | h1
+      · subst h1
+        exact (x.read_stuck htsr hp ha hk).2.2.1 hslow
+      · cases i <;> simp [Instr.isFail] at h1
+        rcases hb.kind with ⟨_, h⟩ | ⟨_, _, h⟩ | ⟨_, h⟩ | ⟨_, h⟩ | ⟨_, h⟩ <;> cases h
+      · cases i <;> simp [Instr.isDie] at h1
+        rcases hb.kind with ⟨_, h⟩ | ⟨_, _, h⟩ | ⟨_, h⟩ | ⟨_, h⟩ | ⟨_, h⟩ <;> cases h
+    | true =>
+      have hmem := suffix_head_mem (by rw [← hp]; exact (p2 hin).1)
+      rw [hsink.2.2.2.2.2] at hmem; simp at hmem; subst hmem
+      rcases hb.kind with ⟨_, h⟩ | ⟨_, _, h⟩ | ⟨_, h⟩ | ⟨_, h⟩ | ⟨_, h⟩ <;> cases h
+
+/-- a sender blocked in `send` / `close` waits for its PIPE reader: that one is behind -/
+theorem Term.pipe_slow (x : Term net c s) {m : Nat} {sp : MBSpec} {a : AMB} (hsp : net.mbs[m]? = some sp) (ha : s.mbs[m]? = some a)
+    (hkl : a.killed = false) (hfull : ¬ a.heapLen < sp.cap) :
+    ∃ sb, a.subs[c.pipe m]? = some sb ∧ sb.next < a.nSent := by
+  have hmlt : m < net.mbs.length := (List.getElem?_eq_some_iff.mp hsp).1
+  obtain ⟨sp', hsp', hcap, hp, _⟩ := x.tree.mailbox hmlt
+  rw [hsp] at hsp'; cases hsp'
+  have hlen := x.inv.lenS m sp a hsp ha
+  have hne : a.subs ≠ [] := by
+    intro h0; rw [h0] at hlen; simp at hlen; omega
+  obtain ⟨k, sb, hk, hn⟩ := minNext_attained a.subs hne
+  have hslow : sb.next < a.nSent := by unfold AMB.heapLen at hfull; omega
+  by_cases hkp : k = c.pipe m
+  · subst hkp; exact ⟨sb, hk, hslow⟩
+  · exact (x.sink_not_slow hmlt ha hk hkp hkl hslow).elim
+
+/-- nobody has been handed a message it has not taken yet (such a waiter would be enabled) -/
+theorem Term.no_stale (x : Term net c s) {m : Nat} {a : AMB} {k : Nat} {sb : ASub} {v : Nat} (ha : s.mbs[m]? = some a)
+    (hk : a.subs[k]? = some sb) (hw : sb.waiting = some v) (hkl : a.killed = false) : ¬ v < a.nSent := by
+  intro hlt
+  obtain ⟨h1, _, tsr, rest, hr, hp⟩ := x.inv.wait m a k sb v ha hk hw
+  have := (x.read_stuck hr hp ha hk).2.2.1
+  rw [h1] at hlt; exact this hlt
+
+end
+
+section
+variable {net : Net} {c : Cert} {s : NState}
+
+/-- DOWN: in a terminal state no pipe reader is stuck in a `read` — by induction on the rank of the mailbox: its sender
+would have to be stuck in a `read` of a mailbox of lower rank -/
+theorem Term.no_stuck (x : Term net c s) : ∀ (n m : Nat), c.rank m = n → m < net.mbs.length →
+    ∀ (tsr : TSt) (rest : List Instr), s.thr[c.reader m (c.pipe m)]? = some tsr → tsr.prog = .read m (c.pipe m) :: rest → False := by
+  intro n
+  induction n using Nat.strongRecOn with
+  | _ n ih =>
+    intro m hrank hmlt tsr rest htsr hp
+    obtain ⟨thr, hthr⟩ := x.inv.thread htsr
+    obtain ⟨hin, _, _, sp, a, sb, hsp, ha, hsb⟩ := head_read x.tree x.inv hthr htsr hp
+    obtain ⟨hb0, hkl, hnlt, hwait⟩ := x.read_stuck htsr hp ha hsb
+    have hrd := x.inv.rd m a (c.pipe m) sb tsr ha hsb htsr hin
+    rw [hp, count_cons_self, hb0] at hrd
+    obtain ⟨sp', hsp', _, hpl, hdrv, _⟩ := x.tree.mailbox hmlt
+    rw [hsp] at hsp'; cases hsp'
+    obtain ⟨thv, hthv, _, hok⟩ := sender_thread x.tree hmlt
+    have hvlt : c.sender m < net.threads.length := (List.getElem?_eq_some_iff.mp hthv).1
+    obtain ⟨tsv, htsv⟩ := x.inv.thrState hvlt
+    obtain ⟨q0, q1, q2⟩ := x.inv.pc _ thv tsv hthv htsv
+    obtain ⟨s1, s2, s3⟩ := x.inv.snd m a hmlt ha
+    obtain ⟨s4, _⟩ := s3 tsv htsv
+    cases hinv : tsv.inEpi with
+    | true =>
+      obtain ⟨hsuf, hex⟩ := q2 hinv
+      cases hexc : tsv.exc with
+      | none => simp [hexc] at hex
+      | some e =>
+        obtain ⟨own, r0⟩ := e
+        rcases (x.inv.kills _ thv tsv own r0 hthv htsv hinv hexc).1 m (by rw [hok.2.2.1]; simp) with hm | ⟨a', ha', hk'⟩
+        · cases hpv : tsv.prog with
+          | nil => rw [hpv] at hm; cases hm
+          | cons i rest' =>
+            have hb := x.blocked htsv hpv
+            have hmem := suffix_head_mem (by rw [← hpv]; exact hsuf)
+            rw [hok.2.2.1] at hmem; simp at hmem; subst hmem
+            rcases hb.kind with ⟨_, h⟩ | ⟨_, _, h⟩ | ⟨_, h⟩ | ⟨_, h⟩ | ⟨_, h⟩ <;> cases h
+        · rw [ha] at ha'; cases ha'; rw [hkl] at hk'; cases hk'
+    | false =>
+      cases hpv : tsv.prog with
+      | nil =>
+        have := s4 hinv
+        rw [hpv] at this; simp [countOut] at this
+        omega
+      | cons i rest' =>
+        have hb := x.blocked htsv hpv
+        have hmem : i ∈ thv.body := suffix_head_mem (by rw [← hpv]; exact q1 hinv)
+        have hform := hok.mem hmem
+        cases hb with
+        | gate m' sp' a' hsp' ha' hcf =>
+          have hm' : m' = m := by
+            rcases hform with h1 | h1
+            · cases h1
+            · simpa [senderInstrOk] using h1
+          subst hm'
+          rw [ha] at ha'; cases ha'; rw [hsp] at hsp'; cases hsp'
+          obtain ⟨_, hcases⟩ := canFetch_false hcf
+          rcases hcases with ⟨k2, sb2, v2, hk2, hw2, hlt⟩ | hnd
+          · exact x.no_stale ha hk2 hw2 hkl hlt
+          · exact hwait (hnd (c.pipe m') sb hsb hdrv)
+        | read m' k' a' sb' ha' hsb' _ _ _ _ =>
+          rcases hform with h1 | h1
+          · cases h1
+          · simp only [senderInstrOk] at h1
+            obtain ⟨hm'lt, hrd', hpipe', hrk⟩ := h1
+            subst hpipe'
+            exact ih (c.rank m') (by omega) m' rfl hm'lt tsv rest' (by rw [hrd']; exact htsv) hpv
+        | out _ m' sp' a' hi hsp' ha' hcl' hkl' hfull =>
+          have hm' : m' = m := by
+            rcases hform with h1 | h1
+            · rcases hi with hi | hi <;> rw [hi] at h1 <;> cases h1; rfl
+            · rcases hi with hi | hi <;> rw [hi] at h1 <;> simp [senderInstrOk] at h1
+              exact h1
+          subst hm'
+          rw [ha] at ha'; cases ha'
+          obtain ⟨sb', hsb', hslow⟩ := x.pipe_slow hsp' ha hkl hfull
+          rw [hsb] at hsb'; cases hsb'
+          exact hnlt hslow
+        | join u _ _ _ =>
+          rcases hform with h1 | h1
+          · cases h1
+          · simp [senderInstrOk] at h1
+
+end
+
+/-! ### list facts about suffixes of `a ++ b` -/
+
+theorem suffix_append_cases {α} {l a b : List α} (h : l <:+ a ++ b) : l <:+ b ∨ ∃ a', a' ≠ [] ∧ a' <:+ a ∧ l = a' ++ b := by
+  induction a with
+  | nil => exact Or.inl (by simpa using h)
+  | cons x a' ih =>
+    rcases List.suffix_cons_iff.mp (by simpa using h) with h1 | h1
+    · exact Or.inr ⟨x :: a', by simp, List.suffix_refl _, by simpa using h1⟩
+    · rcases ih h1 with h2 | ⟨a'', hne, hs, he⟩
+      · exact Or.inl h2
+      · exact Or.inr ⟨a'', hne, hs.trans (List.suffix_cons x a'), he⟩
+
+section
+variable {net : Net} {c : Cert} {s : NState}
+
+/-- upper bound of the ranks of the mailboxes -/
+def rankBound (net : Net) (c : Cert) : Nat := (List.range net.mbs.length).foldl (fun acc m => max acc (c.rank m)) 0
+
+theorem foldl_max_le (f : Nat → Nat) : ∀ (l : List Nat) (init : Nat) (m : Nat), m ∈ l → f m ≤ l.foldl (fun acc m => max acc (f m)) init := by
+  intro l
+  induction l with
+  | nil => intro init m h; cases h
+  | cons x r ih =>
+    intro init m h
+    simp only [List.foldl_cons]
+    rcases List.mem_cons.mp h with rfl | h
+    · have : ∀ (l : List Nat) (i : Nat), i ≤ l.foldl (fun acc m => max acc (f m)) i := by
+        intro l; induction l with
+        | nil => intro i; simp
+        | cons y r' ih' => intro i; simp only [List.foldl_cons]; exact Nat.le_trans (Nat.le_max_left _ _) (ih' _)
+      exact Nat.le_trans (Nat.le_max_right _ _) (this r _)
+    · exact ih _ m h
+
+theorem rank_le_bound (net : Net) (c : Cert) {m : Nat} (h : m < net.mbs.length) : c.rank m ≤ rankBound net c :=
+  foldl_max_le c.rank _ 0 m (List.mem_range.mpr h)
+
+/-- the consumer has left its reading phase without an exception -/
+def MainDone (net : Net) (s : NState) : Prop :=
+  ∃ tsm, s.thr[net.threads.length - 1]? = some tsm ∧ tsm.inEpi = false ∧ ∀ m k, Instr.read m k ∉ tsm.prog
+
+/-- UP: once the consumer has read everything, every sender has ended regularly — by induction from the target
+mailbox towards the sources: the pipe reader of a mailbox has consumed all of it, so it was closed -/
+theorem Term.senders_done (x : Term net c s) (hmd : MainDone net s) : ∀ (d m : Nat), rankBound net c - c.rank m = d →
+    m < net.mbs.length → ∃ tsv a, s.thr[c.sender m]? = some tsv ∧ tsv.prog = [] ∧ tsv.inEpi = false ∧
+      s.mbs[m]? = some a ∧ a.closed = true ∧ a.nSent = tot net c m := by
+  intro d
+  induction d using Nat.strongRecOn with
+  | _ d ih =>
+    intro m hd hmlt
+    obtain ⟨sp, hsp, _, hpl, _, _, _, hr⟩ := x.tree.mailbox hmlt
+    obtain ⟨a, ha⟩ := x.inv.mailbox hmlt
+    obtain ⟨sb, hsb⟩ := x.inv.subscriber hsp ha hpl
+    obtain ⟨hrlt, _, _, hkind⟩ := hr (c.pipe m) hpl
+    obtain ⟨tsr, htsr⟩ := x.inv.thrState hrlt
+    -- the pipe reader has consumed every message of m
+    have hcons : sb.next - sb.buffered = tot net c m := by
+      rcases hkind rfl with hmain | hsome
+      · obtain ⟨tsm, htsm, hin, hnr⟩ := hmd
+        rw [hmain] at htsr; rw [htsm] at htsr; cases htsr
+        have := x.inv.rd m a (c.pipe m) sb tsr ha hsb (by rw [hmain]; exact htsm) hin
+        rw [List.count_eq_zero.mpr (hnr m (c.pipe m))] at this
+        omega
+      · cases ho : c.out (c.reader m (c.pipe m)) with
+        | none => simp [ho] at hsome
+        | some o =>
+          obtain ⟨thw, hthw, hmem⟩ := reader_has_read x.tree hsp hpl
+          have hkw := x.tree.kind hthw
+          cases hkw with
+          | main hmain _ =>
+            -- the consumer has no output
+            have hlt : net.threads.length - 1 < net.threads.length := by have := x.tree.1; omega
+            cases x.tree.kind hthw with
+            | main _ hok => rw [hmain] at ho; rw [hok.2.2.2.1] at ho; cases ho
+            | sender _ hne _ _ => exact absurd hmain hne
+            | sink hne _ _ _ => exact absurd hmain hne
+          | sink _ hnone _ _ => rw [hnone] at ho; cases ho
+          | sender o' _ ho' hok =>
+            rw [ho] at ho'; cases ho'
+            have hrk : c.rank m < c.rank o := by
+              rcases hok.mem hmem with h1 | h1
+              · cases h1
+              · simp only [senderInstrOk] at h1; exact h1.2.2.2
+            have hb := rank_le_bound net c hok.1
+            obtain ⟨tsw, _, htsw, hpw, hinw, _⟩ := ih (rankBound net c - c.rank o) (by omega) o rfl hok.1
+            rw [hok.2.1] at htsw
+            rw [htsr] at htsw; cases htsw
+            have := x.inv.rd m a (c.pipe m) sb tsr ha hsb htsr hinw
+            rw [hpw] at this; simpa using this
+    have hsub := x.inv.sub m a (c.pipe m) sb ha hsb
+    obtain ⟨s1, s2, s3⟩ := x.inv.snd m a hmlt ha
+    have hns : a.nSent = tot net c m := by omega
+    have hcl : a.closed = true := s2.mpr hns
+    obtain ⟨thv, hthv, _, _⟩ := sender_thread x.tree hmlt
+    have hvlt : c.sender m < net.threads.length := (List.getElem?_eq_some_iff.mp hthv).1
+    obtain ⟨tsv, htsv⟩ := x.inv.thrState hvlt
+    obtain ⟨h1, h2⟩ := (s3 tsv htsv).2 hcl
+    exact ⟨tsv, a, htsv, h1, h2, ha, hcl, hns⟩
+
+end
+
+section
+variable {net : Net} {c : Cert} {s : NState}
+
+theorem Term.main_thread (x : Term net c s) :
+    ∃ thm tsm, net.threads[net.threads.length - 1]? = some thm ∧ s.thr[net.threads.length - 1]? = some tsm ∧
+      MainOk c net.mbs.length net.threads.length thm := by
+  have hlt : net.threads.length - 1 < net.threads.length := by have := x.tree.1; omega
+  have hth : net.threads[net.threads.length - 1]? = some (net.threads[net.threads.length - 1]'hlt) := List.getElem?_eq_getElem hlt
+  obtain ⟨tsm, htsm⟩ := x.inv.thrState hlt
+  cases x.tree.kind hth with
+  | main _ hok => exact ⟨_, tsm, hth, htsm, hok⟩
+  | sender m hne _ _ => exact absurd rfl hne
+  | sink hne _ _ _ => exact absurd rfl hne
+
+/-- a thread that is not the consumer is never waiting in a `join` -/
+theorem Term.not_join (x : Term net c s) {t : Nat} {th : Thread} {ts : TSt} {u : Nat} {rest : List Instr}
+    (hne : t ≠ net.threads.length - 1) (hth : net.threads[t]? = some th) (hts : s.thr[t]? = some ts)
+    (hp : ts.prog = .join u :: rest) : False := by
+  have hmem : Instr.join u ∈ th.body ∨ Instr.join u ∈ th.epi := by
+    rcases x.inv.headMem hth hts hp with ⟨_, hs⟩ | ⟨_, hs⟩
+    · exact Or.inl (suffix_head_mem hs)
+    · exact Or.inr (suffix_head_mem hs)
+  cases x.tree.kind hth with
+  | main hmain _ => exact hne hmain
+  | sender m _ _ hok =>
+    rcases hmem with hm | hm
+    · rcases hok.mem hm with h1 | h1
+      · cases h1
+      · simp [senderInstrOk] at h1
+    · rw [hok.2.2.1] at hm; simp at hm
+  | sink _ _ hok _ =>
+    rcases hmem with hm | hm
+    · rcases hok.2.2.2.1 _ hm with h1 | h1 | h1
+      · cases h1
+      · simp [Instr.isFail] at h1
+      · simp [Instr.isDie] at h1
+    · rw [hok.2.2.2.2.2] at hm; simp at hm
+
+/-- when every mailbox is killed, nothing but a `join` can block -/
+theorem Term.all_killed_ended (x : Term net c s) (hk : ∀ m, m < net.mbs.length → s.killedMb m) {t : Nat} {ts : TSt}
+    (hne : t ≠ net.threads.length - 1) (hts : s.thr[t]? = some ts) : ts.prog = [] := by
+  cases hp : ts.prog with
+  | nil => rfl
+  | cons i rest =>
+    exfalso
+    obtain ⟨th, hth⟩ := x.inv.thread hts
+    have hb := x.blocked hts hp
+    have hkm : ∀ (m : Nat) (a : AMB), s.mbs[m]? = some a → a.killed = true := by
+      intro m a ha
+      have hmlt : m < net.mbs.length := by rw [← x.inv.lenM]; exact (List.getElem?_eq_some_iff.mp ha).1
+      obtain ⟨a', ha', hk'⟩ := hk m hmlt
+      rw [ha] at ha'; cases ha'; exact hk'
+    cases hb with
+    | gate m sp a hsp ha hcf =>
+      have := (canFetch_false hcf).1; rw [hkm m a ha] at this; cases this
+    | read m k a sb ha _ _ hkl _ _ => rw [hkm m a ha] at hkl; cases hkl
+    | out _ m sp a _ _ ha _ hkl _ => rw [hkm m a ha] at hkl; cases hkl
+    | join u _ _ _ => exact x.not_join hne hth hts hp
+
+/-- the central result: a terminal state of a tree-shaped net has no unfinished thread -/
+theorem Term.all_ended (x : Term net c s) : ∀ (t : Nat) (ts : TSt), s.thr[t]? = some ts → ts.prog = [] := by
+  obtain ⟨thm, tsm, hthm, htsm, hokm⟩ := x.main_thread
+  obtain ⟨sv, hepi⟩ := hokm.epi_eq
+  obtain ⟨q0, q1, q2⟩ := x.inv.pc _ thm tsm hthm htsm
+  -- first: the consumer has ended
+  have hmainEnded : tsm.prog = [] := by
+    cases hpm : tsm.prog with
+    | nil => rfl
+    | cons i rest =>
+      exfalso
+      have hb := x.blocked htsm hpm
+      have hform : i = .read (c.src (net.threads.length - 1)).1 (c.src (net.threads.length - 1)).2 ∨ i.isFail = true ∨ i ∈ thm.epi := by
+        rcases x.inv.headMem hthm htsm hpm with ⟨_, hs⟩ | ⟨_, hs⟩
+        · exact hokm.body_mem (suffix_head_mem hs)
+        · exact Or.inr (Or.inr (suffix_head_mem hs))
+      cases hb with
+      | gate m _ _ _ _ _ =>
+        rcases hform with h1 | h1 | h1
+        · cases h1
+        · simp [Instr.isFail] at h1
+        · rcases hokm.epi_mem h1 with ⟨_, _, h2⟩ | ⟨_, _, h2⟩ | ⟨_, h2⟩ <;> cases h2
+      | out _ m _ _ hi _ _ _ _ _ =>
+        rcases hform with h1 | h1 | h1
+        · rcases hi with hi | hi <;> rw [hi] at h1 <;> cases h1
+        · rcases hi with hi | hi <;> rw [hi] at h1 <;> simp [Instr.isFail] at h1
+        · rcases hokm.epi_mem h1 with ⟨_, _, h2⟩ | ⟨_, _, h2⟩ | ⟨_, h2⟩ <;> rcases hi with hi | hi <;> rw [hi] at h2 <;> cases h2
+      | read m k a sb ha hsb _ _ _ _ =>
+        -- stuck reading the target: impossible (DOWN)
+        rcases hform with h1 | h1 | h1
+        · cases h1
+          have hmlt := hokm.1
+          refine x.no_stuck _ _ rfl hmlt tsm rest ?_ ?_
+          · rw [hokm.2.2.1, hokm.2.1]; exact htsm
+          · rw [hokm.2.2.1]; exact hpm
+        · simp [Instr.isFail] at h1
+        · rcases hokm.epi_mem h1 with ⟨_, _, h2⟩ | ⟨_, _, h2⟩ | ⟨_, h2⟩ <;> cases h2
+      | join u tu htu hnend =>
+        have hu := head_join x.tree x.inv hthm htsm hpm
+        have hune : u ≠ net.threads.length - 1 := by omega
+        cases hin : tsm.inEpi with
+        | true =>
+          -- the consumer has killed every mailbox: nobody can be blocked
+          obtain ⟨hsuf, hex⟩ := q2 hin
+          cases hexc : tsm.exc with
+          | none => simp [hexc] at hex
+          | some e =>
+            obtain ⟨own, r0⟩ := e
+            have hk1 := (x.inv.kills _ thm tsm own r0 hthm htsm hin hexc).1
+            have hnokill : ∀ m, Instr.killIfExc m ∉ tsm.prog := by
+              intro m hm
+              rw [hpm] at hsuf hm
+              rw [hepi, List.append_assoc] at hsuf
+              rcases suffix_append_cases hsuf with h2 | ⟨a', hne, hs, he⟩
+              · have := suffix_mem h2 hm
+                simp only [List.mem_append, List.mem_map, List.mem_range, List.mem_singleton] at this
+                rcases this with ⟨_, _, h3⟩ | h3 <;> cases h3
+              · cases a' with
+                | nil => exact hne rfl
+                | cons y a'' =>
+                  simp only [List.cons_append, List.cons.injEq] at he
+                  have : y ∈ (List.range net.mbs.length).map Instr.killIfExc := suffix_mem hs (by simp)
+                  simp only [List.mem_map, List.mem_range] at this
+                  obtain ⟨_, _, h3⟩ := this
+                  rw [← he.1] at h3; cases h3
+            have hall : ∀ m, m < net.mbs.length → s.killedMb m := by
+              intro m hm
+              rcases hk1 m (by rw [hepi]; simp only [List.mem_append, List.mem_map, List.mem_range]; exact Or.inl (Or.inl ⟨m, hm, rfl⟩)) with h2 | h2
+              · exact absurd h2 (hnokill m)
+              · exact h2
+            exact hnend (x.all_killed_ended hall hune htu)
+        | false =>
+          -- the consumer has read everything: every sender has ended regularly, every mailbox is closed
+          have hnoread : ∀ m k, Instr.read m k ∉ tsm.prog := by
+            intro m k hm
+            have hsuf := q1 hin
+            rw [hpm] at hsuf hm
+            rw [hokm.2.2.2.2.1] at hsuf
+            rcases suffix_append_cases hsuf with h2 | ⟨a', hne, hs, he⟩
+            · rcases hokm.epi_mem (suffix_mem h2 hm) with ⟨_, _, h3⟩ | ⟨_, _, h3⟩ | ⟨_, h3⟩ <;> cases h3
+            · cases a' with
+              | nil => exact hne rfl
+              | cons y a'' =>
+                simp only [List.cons_append, List.cons.injEq] at he
+                rcases hokm.2.2.2.2.2.1 y (suffix_mem hs (by simp)) with h3 | h3
+                · rw [← he.1] at h3; cases h3
+                · rw [← he.1] at h3; simp [Instr.isFail] at h3
+          have hmd : MainDone net s := ⟨tsm, htsm, hin, hnoread⟩
+          obtain ⟨thu, hthu⟩ := x.inv.thread htu
+          cases x.tree.kind hthu with
+          | main hmain _ => exact hune hmain
+          | sender o _ _ hok =>
+            obtain ⟨tsv, _, htsv, hpv, _⟩ := x.senders_done hmd _ o rfl hok.1
+            rw [hok.2.1, htu] at htsv; cases htsv
+            exact hnend hpv
+          | sink _ hnone hok hv =>
+            unfold SinkOk at hok
+            obtain ⟨sp, hsp, hklt⟩ := hv
+            obtain ⟨_, a, _, _, _, ha, _, hns⟩ := x.senders_done hmd _ (c.src u).1 rfl hok.1
+            obtain ⟨sb, hsb⟩ := x.inv.subscriber hsp ha hklt
+            obtain ⟨p0, p1, p2⟩ := x.inv.pc _ thu tu hthu htu
+            cases hpu : tu.prog with
+            | nil => exact hnend hpu
+            | cons j rest' =>
+              have hbu := x.blocked htu hpu
+              cases hinu : tu.inEpi with
+              | true =>
+                have hmem := suffix_head_mem (by rw [← hpu]; exact (p2 hinu).1)
+                rw [hok.2.2.2.2.2] at hmem; simp at hmem; subst hmem
+                rcases hbu.kind with ⟨_, h⟩ | ⟨_, _, h⟩ | ⟨_, h⟩ | ⟨_, h⟩ | ⟨_, h⟩ <;> cases h
+              | false =>
+                have hmem := suffix_head_mem (by rw [← hpu]; exact p1 hinu)
+                rcases hok.2.2.2.1 j hmem with h1 | h1 | h1
+                · subst h1
+                  obtain ⟨hb0, _, hnlt, _⟩ := x.read_stuck htu hpu ha hsb
+                  have := x.inv.rd _ a _ sb tu ha hsb (by rw [hok.2.1]; exact htu) hinu
+                  rw [hpu, count_cons_self] at this
+                  omega
+                · cases j <;> simp [Instr.isFail] at h1
+                  rcases hbu.kind with ⟨_, h⟩ | ⟨_, _, h⟩ | ⟨_, h⟩ | ⟨_, h⟩ | ⟨_, h⟩ <;> cases h
+                · cases j <;> simp [Instr.isDie] at h1
+                  rcases hbu.kind with ⟨_, h⟩ | ⟨_, _, h⟩ | ⟨_, h⟩ | ⟨_, h⟩ | ⟨_, h⟩ <;> cases h
+  -- then: it has joined everybody
+  intro t ts hts
+  have htlt : t < net.threads.length := by rw [← x.inv.lenT]; exact (List.getElem?_eq_some_iff.mp hts).1
+  by_cases hmain : t = net.threads.length - 1
+  · subst hmain; rw [htsm] at hts; cases hts; exact hmainEnded
+  · rcases x.inv.joins t tsm (by omega) htsm with ⟨tu, htu, hpu⟩ | hj
+    · rw [hts] at htu; cases htu; exact hpu
+    · rw [hmainEnded] at hj; cases hj
+
+end
 
 end Strax.Net
